@@ -145,8 +145,9 @@ def gen_history_conf(rng, nd, ncmd):
     kinds = []
     directed = rng.random()
     if directed < 0.55:
-        # a hole, then a rename (with or without something in between)
-        kinds += ['retire'] + rng.choice([[], [], ['reorder'], ['fs']]) + ['rename']
+        # a hole at a LOWER position, then the rename of a disk above it (with or without something in between)
+        lo = rng.randint(1, nd - 1)
+        kinds += [('retire', 'd%d' % lo)] + rng.choice([[], [], ['reorder'], ['fs']]) + [('rename', 'd%d' % rng.randint(lo + 1, nd))]
     for _ in range(max(1, ncmd - len(kinds))):
         kinds.append(rng.choice(['rename', 'retire', 'add', 'reorder', 'fs', 'fs', 'rename', 'add']))
     nextd = nd + 1
@@ -160,6 +161,8 @@ def gen_history_conf(rng, nd, ncmd):
         elif k == 'add':
             ops.append(('cfg', 'add', 'd%d' % nextd, rng.getrandbits(16)))
             nextd += 1
+        elif isinstance(k, tuple):
+            ops.append(('cfg', k[0], k[1], rng.getrandbits(16)))
         else:
             ops.append(('cfg', k, 'd%d' % rng.randint(1, nextd - 1), rng.getrandbits(16)))
     ops.append(('sync',))
